@@ -304,7 +304,8 @@ debug = false
         if not os.path.exists(p) or open(p).read() != src:
             open(p, "w").write(src)
         env = vlib.cargo_env()
-        env["CARGO_TARGET_DIR"] = os.path.join(d, "target")
+        import e2e
+        env["CARGO_TARGET_DIR"] = e2e.target_dir()
         rc, out = vlib.sh(["cargo", "check", "--offline", "--quiet", "--message-format=short"], cwd=d, env=env, timeout=3000)
         return rc, out
     # items with serde-only attributes cannot be compiled without derive(Serialize): keep ts-only items
